@@ -959,6 +959,22 @@ fn c19_case<A: QElem>(rng: &mut Rng, acc: &mut Acc) {
     let interp = |st: St| st == St::Midpoint || st == St::Linear;
     for (si, st) in ALL_ST.iter().enumerate() {
         if *st == St::Linear && lin_unjudged {
+            // 64-bit integers of magnitude >= 2^52: the documented computation goes through f64, so only the
+            // relations it guarantees exactly are judged: Q(0) = min, Q(1) = max, and Linear == Lower wherever the
+            // index (N-1)q is integral (fraction 0 adds nothing to the lower element)
+            for (j, &q) in grid.iter().enumerate() {
+                if let (Some(v), Some(lo)) = (table[si][j], table[0][j]) {
+                    let idx = (n - 1) as f64 * q;
+                    if idx.fract() == 0.0 {
+                        acc.count("relations_checked");
+                        if v != lo || (q == 0.0 && v != mn) || (q == 1.0 && v != mx) {
+                            acc.violation("law_coincide", if f7 { cls } else { None }, J::obj(vec![("what", J::s(format!("(N-1)q = {} is integral but Linear = {} and Lower = {} (min {}, max {})", idx, v.show(), lo.show(), mn.show(), mx.show()))), ("case", cj(q, *st))]));
+                            return;
+                        }
+                    }
+                }
+            }
+            acc.count("linear_64bit_magnitude_exact_relations_only");
             continue;
         }
         let kc = if interp(*st) { cls } else { None };
